@@ -1939,6 +1939,75 @@ pub fn opx_case(i: u64) -> Option<Case> {
     Some(Case { lines })
 }
 
+/// Pens with the same observable value reached by different histories (faint while bold, bold
+/// while faint, set-then-reset bits, a palette colour by its two encodings), used by erases over
+/// the same and over adjacent cells: a representation of the pen that keeps more than its
+/// observable value shows in cell equality (diffs between equal screens) and in erase runs.
+pub fn fam_pen(r: &mut Rng) -> Case {
+    let rows = 1 + r.below(4) as u16;
+    let cols = 2 + r.below(8) as u16;
+    let d = Dim { rows, cols };
+    let mut lines = vec![format!("NEW {rows} {cols} 0 0")];
+    let mut b = gen_stream_0(r, d, 3, &Feat::plain());
+    let colour = match r.below(4) {
+        0 => format!("\x1b[4{}m", 1 + r.below(7)),
+        1 => format!("\x1b[3{}m", 1 + r.below(7)),
+        2 => format!("\x1b[48;5;{}m", r.below(256)),
+        _ => String::new(),
+    };
+    // (history, direct): two ways to the same observable pen
+    let (hist, direct) = *r.pick(&[
+        ("\x1b[1m\x1b[2m", "\x1b[2m"),
+        ("\x1b[1;2m", "\x1b[2m"),
+        ("\x1b[2m\x1b[1m", "\x1b[1m"),
+        ("\x1b[2;1m", "\x1b[1m"),
+        ("\x1b[1m\x1b[2m\x1b[22m", ""),
+        ("\x1b[1m\x1b[2m\x1b[1m", "\x1b[1m"),
+        ("\x1b[3m\x1b[23m", ""),
+        ("\x1b[7m\x1b[27m", ""),
+        ("\x1b[4m\x1b[24m\x1b[7m", "\x1b[7m"),
+        ("\x1b[38;5;3m", "\x1b[33m"),
+        ("\x1b[38;5;12m", "\x1b[94m"),
+        ("\x1b[31m\x1b[39m", ""),
+    ]);
+    let row = 1 + r.below(u64::from(rows));
+    let col = 1 + r.below(u64::from(cols));
+    let n = 1 + r.below(4);
+    let erase = |r: &mut Rng| -> String {
+        match r.below(4) {
+            0 => "\x1b[K".to_string(),
+            1 => "\x1b[2K".to_string(),
+            _ => format!("\x1b[{n}X"),
+        }
+    };
+    let (first, second) = if r.chance(1, 2) { (hist, direct) } else { (direct, hist) };
+    b.extend(format!("\x1b[{row};{col}H\x1b[m{colour}{first}").as_bytes());
+    b.extend(erase(r).as_bytes());
+    p_lines(r, &b, &mut lines);
+    lines.push("SNAP 0".into());
+    for l in ["DUMP", "FMT state", "FMT contents", "FMT attrs"] {
+        lines.push(l.into());
+    }
+    lines.push(format!("ROWSF 0 {cols}"));
+    let mut b2 = vec![];
+    b2.extend(format!("\x1b[m{colour}{second}").as_bytes());
+    if r.chance(1, 2) {
+        // the cells right behind the first run; otherwise the same cells again
+        b2.extend(format!("\x1b[{n}C").as_bytes());
+    }
+    b2.extend(erase(r).as_bytes());
+    if r.chance(1, 3) {
+        gen_text(r, &mut b2);
+    }
+    p_lines(r, &b2, &mut lines);
+    for l in ["DUMP", "DIFF contents 0", "DIFF state 0", "FMT contents", "FMT state", "FMT attrs"] {
+        lines.push(l.into());
+    }
+    lines.push(format!("ROWSF 0 {cols}"));
+    lines.push(format!("ROWSD 0 0 {cols}"));
+    Case { lines }
+}
+
 pub fn family(name: &str) -> fn(&mut Rng) -> Case {
     match name {
         "stream" => fam_stream,
@@ -1954,6 +2023,7 @@ pub fn family(name: &str) -> fn(&mut Rng) -> Case {
         "alt" => fam_alt,
         "wrapdiff" => fam_wrapdiff,
         "cursorfix" => fam_cursorfix,
+        "pen" => fam_pen,
         _ => panic!("unknown family {name}"),
     }
 }
